@@ -7,7 +7,10 @@ import RbModel.Print
   * `stmt  = (dev fmt (arg ...))`, `dev = s | l | (f h)`, `fmt = n | (u cp ...)` (format string as code points);
   * `arg   = c | s | (i n) | (l n) | (f neg mant scale) | (d neg mant scale) | (t cp ...)`.
 Answer: `(status (instr-tags) (col cp ...) (col cp ...) (col cp ...)...)`: the lowering, then screen, LPT1 and the files:
-column counter and everything written (code points), as they are when the program stops. -/
+column counter and everything written (code points), as they are when the program stops.
+
+`(print.runf (h ...) ((stmt ...) ...) (stmt ...))`: the same with function bodies (lists of statements); an item
+`(k f n)` calls function `f` (0-based) with argument `n` (value `n + 1`): PushRet, the body, PopRet, then the item. -/
 namespace RbModel.Drv.Print
 open RbModel RbModel.Print
 
@@ -74,6 +77,31 @@ def sink (p : Option WritePrinter) : Sexp :=
   | none => .atom "closed"
   | some p => .list (.atom (toString p.lastColumn) :: p.out.map fun c => .atom (toString c.toNat))
 
+/-- `(k f n)`: the item calls function number `f` with argument `n`; the function returns `n + 1`. -/
+def xarg? : Sexp → Option XArg
+  | .list [.atom "k", f, n] => do
+    let f ← f.nat?
+    let n ← n.int?
+    pure (.call f (.int (n + 1)))
+  | x => do
+    match ← arg? x with
+    | .expr v => pure (.expr v)
+    | .comma => pure .comma
+    | .semicolon => pure .semicolon
+
+def xstmt? : Sexp → Option XStmt
+  | .list [d, f, .list args] => do
+    let d ← dev? d
+    let f ← fmt? f
+    let args ← args.mapM xarg?
+    pure { target := d, format := f, args := args }
+  | _ => none
+
+def sinstrTag : SInstr → String
+  | .base i => instrTag i
+  | .pushRet => "Push"
+  | .popRet => "Pop"
+
 def handle (cmd : String) (args : List Sexp) : Option String :=
   match cmd, args with
   | "print.run", [.list hs, .list stmts] => do
@@ -83,6 +111,17 @@ def handle (cmd : String) (args : List Sexp) : Option String :=
       let (st, err) := runKeep (St.init hs) code
       let sinks := sink (st.dev .screen) :: sink (st.dev .lpt1) :: hs.map (fun h => sink (st.dev (.file h)))
       pure (toString (Sexp.list (.atom (errName err) :: .list (code.map fun i => .atom (instrTag i)) :: sinks)))
+  | "print.runf", [.list hs, .list funcs, .list stmts] => do
+      -- `(print.runf (handles) ((stmt ...) (stmt ...) ...) (stmt ...))`: function bodies, then the main program
+      let hs ← hs.mapM Sexp.nat?
+      let funcs ← funcs.mapM (fun f => match f with
+        | .list body => body.mapM xstmt?
+        | _ => none)
+      let stmts ← stmts.mapM xstmt?
+      let code ← lowerProgramX funcs (funcs.length + 1) stmts
+      let (st, err) := runS (St.init hs) [] code
+      let sinks := sink (st.dev .screen) :: sink (st.dev .lpt1) :: hs.map (fun h => sink (st.dev (.file h)))
+      pure (toString (Sexp.list (.atom (errName err) :: .list (code.map fun i => .atom (sinstrTag i)) :: sinks)))
   | _, _ => none
 
 end RbModel.Drv.Print
